@@ -11,6 +11,9 @@ use crate::worker::streamer::StreamerRef;
 
 mod program;
 
+#[cfg(feature = "verif")]
+pub use program::verif_run_streamed_task;
+
 pub const WORKER_EXTRA_PROCESS_PID: &str = "ProcessPid";
 
 /// Data created when a task is started on a worker.
